@@ -40,11 +40,35 @@ Start.
 About to fail.
 -> target
 """),
+    # a warning raised by content first evaluated in look-ahead (after the newline), which is then rewound
+    ("warn-lookahead", """-> start
+== start
+Line one.
+{x} is the value.
+~ temp x = 5
+Line three. {y}
+~ temp y = 2
+* [a] {z} chosen.
+  ~ temp z = 1
+  -> END
+* [b] -> END
+"""),
+    ("warn-lookahead-glue", """Line one.
+{u}<>
+ glued
+~ temp u = 1
+Last {v}.
+~ temp v = 1
+-> END
+"""),
     ("err-runout", """Start.
 * [a] A.
 * [b] B. -> END
 """),
 ]
+
+
+LOOP_FREE = {"warn-temp", "warn-lookahead", "warn-lookahead-glue", "err-divert-var", "err-runout"}
 
 
 def events(line):
@@ -126,6 +150,18 @@ def run(ctx):
                     fails.append(dict(key="messages-left-undelivered-with-handler", case=case, line=l)); break
                 if is_cont and rs.startswith("err(") and "h(" in sm and not ne == 0:
                     pass
+            # no re-delivery: in a loop-free program every raising site runs at most once, so the handler
+            # must never see the same (kind, class, site) twice before a reset
+            if m["prog"]["id"] in LOOP_FREE:
+                seen_ev = set()
+                for l in lines[handler_at + 1:]:
+                    if l.startswith('["RESET"]'):
+                        seen_ev = set()
+                    for e in events(l):
+                        if e.startswith("h("):
+                            if e in seen_ev:
+                                fails.append(dict(key="message-delivered-twice", case=case, event=e, line=l))
+                            seen_ev.add(e)
             # exactly once: what the handler received equals what a handler-less run accumulates
             if other and other.get("load") == "ok" and not other.get("out_of_fuel"):
                 ol = other["lines"]
